@@ -10,7 +10,7 @@ Extraction "model.ml"
   upper_pow_two dq_new_conf dq_destroy dq_destroy_cb dq_remove_all_cb dq_copy_shallow dq_copy_deep dq_filter
   dq_contains_value dq_step dq_run spec_step spec_run ins del repl find_index count_eq
   add_at_branch add_at_branch_ok phys mask
-  dq_iter_init dq_iter_next dq_iter_remove dq_iter_add dq_iter_replace dq_iter_index spec_iter_next
+  dq_iter_init dq_iter_next dq_iter_remove dq_iter_add dq_iter_replace dq_iter_index spec_iter_next spec_iter_remove spec_iter_add spec_iter_replace nthN
   dq_zip_next dq_zip_add dq_zip_remove dq_zip_replace
   q_new_conf q_destroy q_destroy_cb q_enqueue q_poll q_peek q_size q_foreach q_iter_next q_iter_replace
   q_zip_next q_zip_replace
